@@ -253,4 +253,11 @@ def r6_escape_sets(ctx):
         o["rule"] = "R6"
 
 
-RULES = [("R1", r1_escaping), ("R2", r2_attr_literals), ("R3", r3_name_len), ("R4", r4_same_table), ("R5", r5_whole_writes), ("R6", r6_escape_sets)]
+def r7_decoder_keeps_everything(ctx):
+    """reading a payload back goes through Decoder::decode: it must decode all of the bytes it is given (C17 R7
+    re-evaluated: a payload starting with U+FEFF keeps it)"""
+    import c17
+    c17.r7_decodes_all_of_it(ctx, "R7")
+
+
+RULES = [("R1", r1_escaping), ("R2", r2_attr_literals), ("R3", r3_name_len), ("R4", r4_same_table), ("R5", r5_whole_writes), ("R6", r6_escape_sets), ("R7", r7_decoder_keeps_everything)]
